@@ -190,20 +190,41 @@ func classifyEnum(c *Ctx, pk, typ string) *enumShape {
 			}
 			okTest := false
 			for _, iff := range ifsIn(m) {
-				s := ex(iff.Cond)
-				if strings.HasPrefix(s, "((recv & ") && strings.Contains(s, "(1 << ") && strings.Contains(s, ") == ") {
-					okTest = true
+				cond, neg := stripNot(iff.Cond)
+				b, isB := cond.(*ssa.BinOp)
+				if !isB || (b.Op != token.EQL && b.Op != token.NEQ) {
+					continue
 				}
-				if strings.HasPrefix(s, "((recv & ") && strings.Contains(s, "(1 << ") && strings.HasSuffix(s, ") != 0)") {
-					okTest = true
+				and, isAnd := b.X.(*ssa.BinOp)
+				if !isAnd || and.Op != token.AND {
+					continue
 				}
-				if b, isB := iff.Cond.(*ssa.BinOp); isB && maskPhi != nil && (b.Op == token.EQL || b.Op == token.NEQ) {
-					// (e & mask) == mask   /   (e & mask) != 0
-					if and, isAnd := b.X.(*ssa.BinOp); isAnd && and.Op == token.AND && ex(and.X) == "recv" && and.Y == ssa.Value(maskPhi) {
-						if k, isK := constInt(b.Y); (b.Op == token.EQL && b.Y == ssa.Value(maskPhi)) || (b.Op == token.NEQ && isK && k == 0) {
-							okTest = true
-						}
-					}
+				var mask ssa.Value
+				if ex(and.X) == "recv" {
+					mask = and.Y
+				} else if ex(and.Y) == "recv" {
+					mask = and.X
+				}
+				if mask == nil || !(strings.Contains(ex(mask), "(1 << ") || (maskPhi != nil && mask == ssa.Value(maskPhi))) {
+					continue
+				}
+				// the edge on which the flag is contained in the value
+				k, isK := constInt(b.Y)
+				var contained int // successor index
+				switch {
+				case b.Y == mask || ex(b.Y) == ex(mask):
+					contained = map[bool]int{true: 0, false: 1}[b.Op == token.EQL]
+				case isK && k == 0: // single-bit masks: non-zero intersection is containment
+					contained = map[bool]int{true: 0, false: 1}[b.Op == token.NEQ]
+				default:
+					continue
+				}
+				if neg {
+					contained = 1 - contained
+				}
+				// the label is looked up exactly on that edge
+				if edgeMustPass(m, edge{iff.Block(), iff.Block().Succs[contained]}, lk.Block()) {
+					okTest = true
 				}
 			}
 			if !okTest {
@@ -224,6 +245,18 @@ func classifyEnum(c *Ctx, pk, typ string) *enumShape {
 	for _, in := range allInstrs(u) {
 		if l, ok := in.(*ssa.Lookup); ok && ex(l.X) == values {
 			vlk = append(vlk, l)
+		}
+	}
+	if len(vlk) > 1 {
+		keys := map[string]bool{}
+		for _, l := range vlk {
+			keys[ex(l.Index)] = true
+		}
+		if len(keys) > 1 {
+			// a second way of reading the text (prefix added, case folded, …) sits before the numeric fallback: what
+			// MarshalText renders for an undefined value — its decimal number — can be captured by a name
+			es.probs = append(es.probs, fmt.Sprintf("UnmarshalText looks the text up in %s under %d different keys: besides the exact name a derived key is tried before the number is parsed, so the decimal rendering of an undefined value can come back as a named constant", values, len(keys)))
+			return es
 		}
 	}
 	if len(vlk) != 1 || !vlk[0].CommaOk {
